@@ -10,7 +10,7 @@
      encs w text       the code units of a text in width w                 (UtfSpec.v) *)
 From BS Require Import Base UtfSpec UtfModel UtfLemmas StreamIStream StreamSpec StreamModel
   StreamUnits StreamDetProofs StreamEsrProofs StreamLossless StreamTruncated StreamEswProofs.
-From BS Require Import StreamPropProofs StreamIllFormed.
+From BS Require Import StreamPropProofs StreamIllFormed StreamChunks.
 Local Open Scope nat_scope.
 
 (* ------------------------------------------------------------------ detection, with BOM *)
@@ -86,6 +86,30 @@ Theorem T_C13_stream_lossless_outside : forall K tgt pol mark e b text sk fuel,
               RunDone (repeat ChSuccess k ++ [ChEndFile]) (encs tgt text) e.
 Proof. exact T_C13_stream_lossless_outside_proof. Qed.
 Print Assumptions T_C13_stream_lossless_outside.
+
+(* the same seen chunk by chunk (what a client that consumes the text as it arrives sees, e.g. the CSV stream reader;
+   esr_chunks, StreamChunks.v: the pieces that successive ReadChunk calls append, up to the EndFile answer, and whether
+   IsEnd() was already true after the last of them): every chunk is non-empty and the chunks concatenate to the text
+   in the target encoding - a character cut by the end of a window is carried over, never split between chunks' ends
+   in a way that loses or repeats a byte *)
+Theorem T_C13_chunks_lossless : forall K tgt pol mark e b text sk fuel,
+  K mod 4 = 0 -> 32 <= K -> Forall scalar text -> detectable b text -> stream_defect e b text = false ->
+  length (with_bom b e text) < fuel ->
+  exists chunks early, esr_chunks K tgt pol mark fuel (stream_of (with_bom b e text) sk) = Some (chunks, early) /\
+    Forall (fun c => c <> []) chunks /\ concat chunks = encs tgt text.
+Proof.
+  intros K tgt pol mark e b text sk fuel H4 H32 Hs Hd Hn Hf.
+  exact (esr_chunks_lossless K H4 H32 tgt pol mark e b text Hs Hd Hn sk fuel Hf).
+Qed.
+Print Assumptions T_C13_chunks_lossless.
+
+Example T_C13_chunks_example :
+  esr_chunks 32 W8 Skip [0x3F]%N 100 (stream_of (with_bom true Utf16be [0x61; 0x3B; 0x20AC; 0x0A]%N) true)
+    = Some ([[0x61; 0x3B; 0xE2; 0x82; 0xAC; 0x0A]%N], true) /\
+  esr_chunks 32 W8 Skip [0x3F]%N 100 (stream_of (with_bom false Utf32le (repeat 0x61%N 12)) true)
+    = Some ([repeat 0x61%N 8; repeat 0x61%N 4], true).
+Proof. exact esr_chunks_example. Qed.
+Print Assumptions T_C13_chunks_example.
 
 (* ------------------------------------------------------------------ progress: no stream hangs the reader *)
 
